@@ -40,6 +40,8 @@ def c02() -> int:
     fsx(c, RES + ({"variant": "core", "slots": 2, "low_energy": False, "name": "W-res/two-slots"},), ("hivemc.bundles", "c02", {}), K=3, H=5 if quick else 7,
         needs=["c02:two_holders"])
     auto_worlds(c, "c02", quick)
+    if not quick:
+        fsx(c, RES + ({"variant": "core", "slots": 2, "low_energy": False, "name": "W-res/two-slots/menu-probe"},), ("hivemc.bundles", "c02_probe", {}), K=2, H=7, needs=["c02:menu_probe"])
     bisim(c, RES + ({"variant": "core", "pairs": False},), K=1 if quick else 2, H=3 if quick else 4)
     return c.finish()
 
@@ -68,6 +70,9 @@ def c07() -> int:
     needs = ["c07:pickup", "c07:dropoff", "instr:Idle:ChargeBase:ChargingBase", "instr:Idle:ReserveBase:Idle",
              "instr:Idle:ChargeStation:Idle"]
     fsx(c, RES + ({"variant": "full" if not quick else "core"},), ("hivemc.bundles", "c07", {}), K=2 if quick else 3, H=7 if quick else 9, needs=needs)
+    # on every reached state, every instruction of the full menu (far-away, missing, wrong-plug targets included) is applied and
+    # the place invariant judged on the result: one more deviation than the search budget, from EVERY reached state
+    fsx(c, RES + ({"variant": "core", "name": "W-res/menu-probe"},), ("hivemc.bundles", "c07_probe", {}), K=2, H=6 if quick else 8, needs=["c07:menu_probe"])
     fsx(c, GRID + ({"pairs": True},), ("hivemc.bundles", "c07", {}), K=2 if quick else 4, H=10 if quick else 11, needs=["c07:pickup", "c07:dropoff"])
     # a base whose station stands on another cell (bases.csv and stations.csv carry independent coordinates)
     fsx(c, RES + ({"variant": "core", "split_base": True, "pairs": False, "name": "W-res/split-base"},), ("hivemc.bundles", "c07", {}), K=2 if quick else 3, H=7 if quick else 9,
